@@ -101,6 +101,34 @@ def gen_replayed_tx(g, k, tier):
     return hs
 
 
+def gen_listing_after_delete(g, k, tier):
+    """a contract lists the records under a prefix (`GetAllServiceIDs`: the stub's Query) after an earlier block DELETED one of them
+    (`DeleteInterchain`) — with a stop and restart of one replica between the delete and the listing, or not: a replica that has run
+    since the delete still holds the deleted key in its account cache (as an empty value), a reopened one does not; the listing, its
+    receipt and everything hashed over it must not tell them apart"""
+    hs = []
+    for _ in range(k):
+        r = _r.Random(g.getrandbits(64))
+        ops = [f"world audit={r.choice([0, 1])} price=1"]
+        victims = r.sample(["1356:c1:s2", "1356:c2:s2", "1356:c2:s3", "1356:c4:s1"], r.choice([1, 2]))
+        if r.random() < 0.5:
+            ops.append("block ibtp ca1 c1:s1 c2:s1 1 req 0 - ok")
+        ops.append(f"block bvm {r.choice(['u0', 'u1', 'ca1'])} interchain GetAllServiceIDs")
+        for v in victims:
+            ops.append(f"block bvm {r.choice(['u0', 'u2', 'adm1'])} interchain DeleteInterchain s:{v}")
+            if r.random() < 0.4:
+                ops.append("restart 0")
+        if r.random() < 0.5:
+            ops.append("block xfer u0 u1 1")
+        if r.random() < 0.6:
+            ops.append("restart 0")
+        ops.append(f"block bvm {r.choice(['u0', 'u1', 'ca2'])} interchain GetAllServiceIDs")
+        ops.append("block ibtp ca1 c1:s1 c2:s1 2 req 0 - ok | bvm u3 interchain GetAllServiceIDs")
+        ops.append("block")
+        hs.append(History(ops, tags={"listing-after-delete"}))
+    return hs
+
+
 def gen(rng, n, tier):
     hs = []
     kinds = [("mixed", lambda g, k: gen_exec.gen(g, k, tier, focus="mixed")),
@@ -111,7 +139,8 @@ def gen(rng, n, tier):
              ("c08", lambda g, k: gen_dispatch.gen_c08(g, k, tier)),
              ("c16", lambda g, k: gen_gov.gen_c16(g, k, tier)),
              ("replay", lambda g, k: gen_replayed_tx(g, max(4, k // 4), tier)),
-             ("eval", lambda g, k: gen_evaluations(g, max(3, k // 5), tier))]
+             ("eval", lambda g, k: gen_evaluations(g, max(3, k // 5), tier)),
+             ("listing", lambda g, k: gen_listing_after_delete(g, max(4, k // 4), tier))]
     per = max(1, n // len(kinds))
     for name, f in kinds:
         g = _r.Random(rng.getrandbits(64))
